@@ -3,6 +3,7 @@ From Coq Require Import NArith List Bool Arith Lia.
 From Verif Require Import Sx Str.
 From Verif.Gen Require Import Phases.
 From Verif.Model Require Import C03.
+Require Verif.Spec.Dispatch.
 Import ListNotations.
 Local Open Scope N_scope.
 
@@ -105,3 +106,9 @@ Qed.
 (* a phase that has no processEOF is never the current phase *)
 Lemma no_eof_never_current : forallb (fun n => mem_str n never_current_phases) phases_without_processEOF = true.
 Proof. vm_compute. reflexivity. Qed.
+
+(* the start/end tag dispatch tables of all 23 phases, re-read from html5parser.py on every run, are the copy the
+   tree-construction model was written against: a handler added, dropped or moved is a broken obligation here *)
+Lemma dispatch_is_the_fixed_copy : Verif.Gen.Phases.dispatch = Verif.Spec.Dispatch.dispatch_spec.
+Proof. reflexivity. Qed.
+
